@@ -666,6 +666,16 @@ def load_corpus():
 
 
 # --------------------------------------------------------------------------- reporting helpers (always confirmed)
+_SEEN = {}
+
+
+def _seen(sig, bump=False):
+    k = canon(sig)
+    if bump:
+        _SEEN[k] = _SEEN.get(k, 0) + 1
+    return _SEEN.get(k, 0)
+
+
 def report_interleave(chk, case, first_verdict):
     """confirm by re-running the single case in the parent; shrink; report"""
     ev = interleave_eval(case)
@@ -673,12 +683,17 @@ def report_interleave(chk, case, first_verdict):
     if v is None:
         chk.count("flaky:interleave-not-reproduced")
         return
+    sig0 = classify(case["ops"], ev["full"], v)
+    if _seen(sig0) >= 2:  # already minimised twice for this signature: count it, keep the smaller replay
+        chk.violation(sig0, f"{sig0['class']} at {sig0['site']}", {"case": {k: case[k] for k in ("kind", "ops")}, "verdict": v})
+        return
     small = interleave_shrink(case, v) or case
     ev2 = interleave_eval(small)
     v2 = None if "failed" in ev2 else interleave_judge(small, ev2)
     if v2 is None:
         small, ev2, v2 = case, ev, v
     sig = classify(small["ops"], ev2["full"], v2)
+    _seen(sig, bump=True)
     chk.violation(
         sig,
         f"{sig['class']} at {sig['site']}: problem {v2['focus']} behaves differently when operations on unrelated problems precede it",
@@ -688,6 +703,13 @@ def report_interleave(chk, case, first_verdict):
 
 def report_pair(chk, prefix, call, fresh, got, obs):
     again_fresh = fresh_outcome(call)
+    quick_sig = {"pair-call": call[:3]}
+    if _seen(quick_sig) >= 2 or sum(_SEEN.values()) >= 12:
+        # enough minimised replays of this call / of this run: confirm once more and count
+        obs2 = sequence_outcomes(prefix + [call])
+        if isinstance(obs2, list) and "failed" not in again_fresh and strip_call(obs2[-1]) != again_fresh:
+            chk.count("pair:further-differences-not-minimised")
+        return
     small = pairs_shrink(prefix, call, again_fresh) if "failed" not in again_fresh else None
     if small is None or again_fresh != fresh:
         chk.count("flaky:pair-not-reproduced")
@@ -695,17 +717,18 @@ def report_pair(chk, prefix, call, fresh, got, obs):
     seq = sequence_outcomes(small + [call])
     latch = any(o.get("info", {}).get("cell_changed") for o in seq if isinstance(o, dict))
     before = seq[-2].get("state", {}) if len(seq) > 1 else {}
+    info = seq[-1].get("info", {})
+    site = f"{info.get('owner')}.{call[2]}" if call[0] == "setprop" and info.get("owner") else call[0]
     if latch:
         cls = "setter-latch"
-    elif call[0].startswith("read") and before.get("log"):
-        cls = "log-leak"
+    elif before.get("log") and (call[0].startswith("read") or not info):
+        cls = "log-leak"  # a read, or the construction of the call's objects from text, met a dirty parser log
     elif call[0].startswith("read") and before.get("queue"):
         cls = "queue-leak"
     else:
         cls = "call-outcome"
-    info = seq[-1].get("info", {})
-    site = f"{info.get('owner')}.{call[2]}" if call[0] == "setprop" else call[0]
     sig = {"mechanism": "shared-state", "class": cls, "site": site}
+    _seen(quick_sig, bump=True)
     chk.violation(
         sig,
         f"{cls} at {site}: the call's outcome after a prefix of calls on other objects differs from its outcome in a fresh interpreter",
